@@ -1,0 +1,40 @@
+//go:build verif
+
+package middleware
+
+// Contracts checked by /verif/goavc (comment-only file, built only with -tags verif).
+
+//@ macro ridKey() = iface(string, middleware.RequestIDKey)
+//@ macro ridOf(c) = unboxStr(ctxVal(c, ridKey()).val)
+//@ macro hdr(h, k) = select(select(HdrVal, h), canonKey(k))
+
+//@ func RequestID$1$1
+//@   property C19 C20
+//@   requires w != nil && r != nil && r.ctx != nil && h != nil && o != nil
+//   -- capture invariant: the flags read when the middleware was built are those of the options object
+//@   requires useReqID == o.useRequestID && reqIDHeader == o.requestIDHeader
+//@   let in0 = ctxVal(r.ctx, ridKey())
+//@   requires in0 == nil || typeIs(in0, string)
+//@   let hv = old(hdr(r.Header, reqIDHeader))
+//@   let r2 = ptr(*http.Request, servedReq)
+//@   ensures* once: servedCount == old(servedCount) + 1 && servedW == w
+//@   ensures* nonempty: typeIs(ctxVal(r2.ctx, ridKey()), string) && ridOf(r2.ctx) != ""
+//@   ensures* trusted: useReqID && hv != "" ==> ridOf(r2.ctx) == ite(o.requestIDLimit > 0 && len(hv) > o.requestIDLimit, substr(hv, 0, o.requestIDLimit), hv)
+//@   ensures* untrusted: !useReqID ==> len(ridOf(r2.ctx)) == 8
+//@   modifies* servedCount, servedReq, servedW
+//@   frameprop C20
+
+//@ func (*ResponseCapture).WriteHeader
+//@   property C19
+//@   requires w != nil && w.ResponseWriter != nil
+//@   let rw = w.ResponseWriter
+//@   ensures* recorded: old(select(statusSent, rw)) == 0 ==> w.StatusCode == select(statusSent, rw) && w.StatusCode == code
+//@   modifies w.StatusCode, whCalls, statusSent, whLastCode
+
+//@ func (*ResponseCapture).Write
+//@   property C19
+//@   requires w != nil && w.ResponseWriter != nil
+//@   let rw = w.ResponseWriter
+//@   ensures* bytes: w.ContentLength - old(w.ContentLength) == select(bytesWritten, rw) - old(select(bytesWritten, rw)) && result0 == w.ContentLength - old(w.ContentLength)
+//@   ensures* status: old(w.StatusCode) == old(select(statusSent, rw)) ==> w.StatusCode == select(statusSent, rw)
+//@   modifies w.StatusCode, w.ContentLength, bytesWritten, statusSent
